@@ -37,7 +37,9 @@ DOCS = ['{"a": [1, 2, {"a": 3}], "arr": [[1], [1, 2]], "a b": "sp", "\\u00e9": "
         b'\xef\xbb\xbf{"a": [1, "\xc3\xa9"], "s": "x"}', '{"a": [1, "\u00e9"], "s": "x"}'.encode("utf-16"), b'{"a": "\xff\xfe\xfd"}',
         '{"a": [1e999, -1e999], "s": "x"}',
         # not JSON, and without any bracket or brace (the library's "probably a bare string" heuristic is for str arguments only)
-        "hello", "1 2", "", '"open']
+        "hello", "1 2", "", '"open',
+        # JSON that the interpreter cannot decode: an integer beyond its integer/string conversion limit (a ValueError)
+        "[" + "1" * 5000 + "]"]
 QUERIES = ["$.a", "$\n.a\n[0]", "$[\n'a',\n's'\n]", "$..a", "$[?@.a]", "$.arr[?length(@) == 1]", "$['\\u0061']", "$[?length(@.*) == 1]", "", "$.*", "$.nope",
            "$[", "$[?count(1) == 1]", "$[?nosuch(@)]", "$[9007199254740992]"]
 POINTERS = ["/a/0", "", "/arr/1/0", "/a%20b", "/a b", "/\\u00e9", "/zz", "/a/9", "a", "/s/0",
@@ -138,7 +140,7 @@ def library(case):
             return ("ok", p.findall(json.loads(doc_text)))
         if case["cmd"] == "pointer":
             doc = json.loads(doc_text) if not _bad_json(doc_text) else None
-            ptr = jsonpath.JSONPointer(case["expr"] if case["inline"] else case["expr"].strip(), unicode_escape=not case["nue"], uri_decode=case["uri"])
+            ptr = jsonpath.JSONPointer(case["expr"], unicode_escape=not case["nue"], uri_decode=case["uri"])
             if doc is None:
                 json.loads(doc_text)
             return ("ok", ptr.resolve(doc))
@@ -149,6 +151,10 @@ def library(case):
         return ("ok", pobj.apply(json.loads(doc_text)))
     except (JSONPathError, JSONPointerError, JSONPatchError, json.JSONDecodeError, UnicodeDecodeError) as e:
         return ("rejected", type(e).__name__)
+    except ValueError as e:
+        if "integer string conversion" in str(e):
+            return ("rejected", "ValueError")  # json.loads cannot decode the document
+        return ("library-crash", type(e).__name__)
     except Exception as e:  # noqa: BLE001
         # the library itself neither accepts nor properly rejects this input (e.g. an ill-typed query evaluated with
         # type checks disabled): outside C18, which compares the front end with the library
